@@ -11,6 +11,7 @@ import random
 import warnings
 
 import common
+import lattice_lib as L
 import export
 
 ASSUME = [
@@ -139,7 +140,10 @@ def run(tier, seed):
         desc = {"cs": cs, "rodrigues1": [x["pair"][0], x["pair"][1]], "rodrigues2": [x["pair"][2], x["pair"][3]]}
         v.case(("umis", cs, repr(x["pair"])), sample=desc if len(v.samples) < 10 and cs == 6 else None)
         try:
-            m = symmetry.Umis(U1, U2, cs)
+            with L.switch_off(n_umis % 3 == 0):          # every third pair with the input checks switched off: same angles
+                m, gm_ = L.twice(symmetry.Umis, U1, U2, cs)
+            if gm_:
+                v.violation(gm_ + " (crystal system %d)" % cs, desc)
         except Exception as ex:
             v.violation("Umis raised %r on proper rotations" % ex, desc)
             continue
